@@ -472,6 +472,8 @@ def run(tier, seed):
     par.pmap(work_history, hist, stats=st, chunk=2)
     from props import c06 as _c06
     par.pmap(work_lost_probe_make, _c06.gex_lost_probe_tasks(), stats=st, chunk=6)
+    from props import delivery as _DL
+    par.pmap(_DL.work_policy, _DL.policy_tasks(tier), extra=(('policy-make', 'policy-verdict'),), stats=st, chunk=12)
     vcases = []
     for spec in H.pick(ps, seed, 6 if tier == 'quick' else 30):
         path = H.tmp_path('c05-val-%d.policy' % len(vcases))
